@@ -126,7 +126,7 @@ def main() -> int:
         for name, obj in vars(mod).items():
             meta = getattr(obj, "__vk__", None)
             if meta and getattr(obj, "__module__", None) == modname:
-                if a.only and name != a.only:
+                if a.only and name not in a.only.split(","):
                     continue
                 if meta["tier"] == "thorough" and tier != "thorough":
                     continue
